@@ -639,8 +639,8 @@ theorem keyed_v0_bytes_exact_or_collision (key : Bytes → Bytes) (ops : List Ke
 /-- the collision alternative is needed for v0: with a colliding key function, committing a
 3-byte transaction removes the pooled 2-byte one and the counter goes to −1 for an empty pool -/
 theorem keyed_v0_bytes_wrong_on_collision :
-    (Keyed.runV0 (fun _ => []) Keyed.empty [.admit [1, 2], .remove [7, 8, 9]]).entries = [] ∧
-    (Keyed.runV0 (fun _ => []) Keyed.empty [.admit [1, 2], .remove [7, 8, 9]]).bytes = -1 := by
+    (Keyed.runV0 (fun _ => []) Keyed.empty [.add [1, 2], .remove [7, 8, 9]]).entries = [] ∧
+    (Keyed.runV0 (fun _ => []) Keyed.empty [.add [1, 2], .remove [7, 8, 9]]).bytes = -1 := by
   decide
 
 /-- `MempoolV0`'s `addTx` / `removeTx` are the keyed operations for the identity key -/
